@@ -35,17 +35,21 @@ PROPS = {
                 rule="non-trivial: a block hook processed due records", nt_from="C01"),
     "C11": dict(sections=["st.node", "st.par", "st.mod"], res_ops=["V"], res_kinds=["node_register", "node_update_details", "node_subscribe"],
                 rule="non-trivial: a price bound was modified while nodes existed (sweep ran)"),
-    "C12": dict(sections=[], res_ops=[], res_kinds=[], rule="export/import round trip"),
-    "C13": dict(sections=[], res_ops=[], res_kinds=[], rule="paged queries"),
+    "C12": dict(sections=[], res_ops=[], res_kinds=[], shared=False,
+                rule="non-trivial: an export point with live marketplace records whose re-import was compared and continued in lock-step"),
+    "C13": dict(sections=[], res_ops=[], res_kinds=[], shared=False,
+                rule="non-trivial: a paging chain with more than one page (every list query of the real query servers, every limit/mode/direction)"),
     "C14": dict(sections=["st.swap", "st.supply"], res_ops=[], res_kinds=["swap"],
                 rule="non-trivial: a swap was executed in the history"),
     "C15": dict(sections=["st.mint", "st.infl"], res_ops=["B"], res_kinds=[],
                 rule="non-trivial: a scheduled inflation entry became due (counted twice when several were due in one block)"),
     "C16": dict(sections=[], res_ops=[], res_kinds=[], pure=True, rule="pure-function cases with non-zero remainder / big operands"),
-    "C17": dict(sections=["st.ix.unknown"], res_ops=[], res_kinds=[], rule="keys"),
+    "C17": dict(sections=["st.ix.unknown"], res_ops=[], res_kinds=[], shared=False,
+                rule="non-trivial: key / address cases with prefix-related addresses, adjacent timestamps, boundary ids"),
     "C18": dict(sections=["st.cnt"], res_ops=[], res_kinds=["plan_create", "node_subscribe", "plan_subscribe", "sess_start"],
                 rule="non-trivial: a plan, subscription or session was created"),
-    "C19": dict(sections=[], res_ops=[], res_kinds=[], rule="codec round trips"),
+    "C19": dict(sections=[], res_ops=[], res_kinds=[], shared=False,
+                rule="non-trivial: round-trip cases of generated values (every registered sentinel.* type, binary + JSON + tx + genesis flows) and model cases of the hand-written codecs"),
 }
 
 TRUSTED_BASE = [
@@ -197,6 +201,28 @@ def evaluate(pid, d, done, V):
     return res
 
 
+def merge_results(a, b):
+    """combine the evaluation of the shared correspondence run with a plug-in's result"""
+    if not a:
+        a = {"findings": [], "ops": 0, "histories": 0, "nontrivial": 0, "stats": {}, "samples": [], "summary": ""}
+    out = dict(a)
+    out["findings"] = list(a.get("findings", [])) + list(b.get("findings", []))
+    out["ops"] = a.get("ops", 0) + int(b.get("ops", 0))
+    out["histories"] = a.get("histories", 0) + int(b.get("histories", 0))
+    out["nontrivial"] = a.get("nontrivial", 0) + int(b.get("nontrivial", 0))
+    st = dict(a.get("stats", {}))
+    for k, v in (b.get("stats") or {}).items():
+        if isinstance(v, (int, float)):
+            st["ext." + k] = v
+    out["stats"] = st
+    out["samples"] = (list(b.get("samples") or []) + list(a.get("samples") or []))[:14]
+    out["summary"] = "; ".join(x for x in (a.get("summary", ""), b.get("summary", "")) if x)
+    for k in ("programs", "disagreements_checked", "level"):
+        if k in b:
+            out[k] = b[k]
+    return out
+
+
 def nontrivial_pure(line):
     t = line.split()
     try:
@@ -313,7 +339,12 @@ def evidence(pid, tier, seed, coq, result, wall, nviol, V):
     }
     if cov["discharged"] == 0:
         cov["discharged"] = 0
-    ev = {"property_id": pid, "tier": tier, "seed": seed, "level": "proof", "coverage": cov,
+    level = "proof"
+    if pid == "C10":
+        level = "translation_validation"
+        cov["programs"] = max(int(result.get("programs", 0)), 1)
+        cov["disagreements_checked"] = int(result.get("disagreements_checked", 0))
+    ev = {"property_id": pid, "tier": tier, "seed": seed, "level": level, "coverage": cov,
           "assumptions": ["configuration domain of DESIGN.md section 5", "environment contract of DESIGN.md section 5.6 / 8 (modelled SDK behaviour)"],
           "wall_s": round(wall, 2), "violations": nviol}
     if cov["discharged"] < 1:
